@@ -60,6 +60,15 @@ unsafe impl GlobalAlloc for GuardAlloc {
         }
     }
 
+    // fresh anonymous mappings are zero already (and the system allocator gets huge zeroed blocks lazily): no memset
+    unsafe fn alloc_zeroed(&self, l: Layout) -> *mut u8 {
+        let m = mode();
+        if m == 0 || l.align() > PAGE {
+            return unsafe { System.alloc_zeroed(l) };
+        }
+        unsafe { self.alloc(l) }
+    }
+
     unsafe fn dealloc(&self, ptr: *mut u8, l: Layout) {
         let m = mode();
         if m == 0 || l.align() > PAGE {
